@@ -145,6 +145,31 @@ theorem history_discipline_consistent (cfg : Config) (hnew : cfg.matches .new = 
     rw [run_append, hrun1]
     exact hrun2
 
+/-- the same induction, keeping both invariants of the final state: what a later stage (a subscriber joining the hub,
+    C07) needs to continue from it -/
+theorem history_invariants_consistent (cfg : Config) (hnew : cfg.matches .new = true) (hundo : cfg.matches .undo = true)
+    (hirr : cfg.matches .irreversible = true) (U : Id → Option Blk) (hU : UOK U) (h : List Blk) (F : List Id)
+    (s : FState) (P : List Id) (hI : Inv s P) (hJ : Inv2 U F s.db) (hin : ∀ b ∈ h, U b.id = some b)
+    (hL : LibHistOK cfg s h) (hincl : s.includeInit = false ∨ s.lastSent.isSome = true) :
+    ∃ P' F', Inv (runHistory cfg s h).1 P' ∧ Inv2 U F' (runHistory cfg s h).1.db := by
+  induction h generalizing s P F with
+  | nil => exact ⟨P, F, hI, hJ⟩
+  | cons b r ih =>
+    have hni : s.includeInit = false ∨ s.lastSent.isSome = true ∨ b.id ≠ s.db.libRef.id := by
+      rcases hincl with h | h
+      · exact Or.inl h
+      · exact Or.inr (Or.inl h)
+    obtain ⟨P1, F1, _, hI1, hJ1, htip⟩ :=
+      step_discipline_consistent cfg hnew hundo hirr U hU F s P b hI hJ (hin b (by simp)) hL.1 hni
+    obtain ⟨P2, F2, hI2, hJ2⟩ := ih F1 _ P1 hI1 hJ1 (fun x hx => hin x (by simp [hx])) hL.2
+      (by rcases hincl with h | h
+          · exact Or.inl (by rw [processBlock_includeInit]; exact h)
+          · rcases htip with ⟨_, hsame⟩ | hsome
+            · exact Or.inr (by rw [hsame]; exact h)
+            · exact Or.inr hsome)
+    rw [runHistory_cons]
+    exact ⟨P2, F2, hI2, hJ2⟩
+
 /-! ### LIB discovery with hold-until-LIB — the configuration of ForkableHub -/
 
 theorem runHistory_nil (cfg : Config) (s : FState) : runHistory cfg s [] = (s, []) := rfl
